@@ -56,13 +56,12 @@ func scenarios(tier string) []vlib.Scenario {
 	if tier == "thorough" {
 		for i, a := range kinds {
 			for _, b := range kinds[i:] {
-				for _, c := range kinds {
-					add(params{Kinds: []string{a, b, c}, Cancel: -1, Spurious: true, P: 1})
-					add(params{Kinds: []string{a, b, c}, Cancel: 2, Spurious: false, P: 1})
-				}
-				add(params{Kinds: []string{a, b}, Cancel: 1, Spurious: true, HoldPing: true, P: 2})
+				add(params{Kinds: []string{a, b, "meta"}, Cancel: -1, Spurious: false, P: 1})
+				add(params{Kinds: []string{a, b}, Cancel: 1, Spurious: true, HoldPing: true, P: 1})
+				add(params{Kinds: []string{a, b}, Cancel: -1, Spurious: false, P: 2})
 			}
 		}
+		add(params{Kinds: []string{"upopen", "downopen", "upclose"}, Cancel: 2, Spurious: true, P: 1})
 	}
 	return out
 }
